@@ -30,8 +30,10 @@ AllParamTexts(ids) == \A k \in DOMAIN ids : ParamList(TextTable[ids[k]]).ok
 (* e.a.adderr; e.o.res : text ids of the returned settings;                *)
 (* e.o.red : text ids of the values of settings_to_dict(result).           *)
 (***************************************************************************)
+\* (a code -1 in the logged list stands for an EMPTY parameter, which a terminal reads as its default value 0)
 PgsC(e) ==
-  LET ps == e.a.codes
+  LET ps == [i \in DOMAIN e.a.codes |-> IF e.a.codes[i] = -1 THEN 0 ELSE e.a.codes[i]]
+      ints == SelectSeq(e.a.codes, LAMBDA c : c # -1)
       r == TermEffs(ps)
       want == TermRun(DefaultState, r.effs)
   IN Cl("C18.defined", TRUE, e.out = "ok")
@@ -51,7 +53,8 @@ PgsC(e) ==
                     \E k \in DOMAIN res : ParamList(TextTable[res[k]]).ps = r.effs[i][2]
               /\ \A k \in DOMAIN res : LET q == ParamList(TextTable[res[k]]).ps IN Len(q) = 1 \/ SingleGroup(q))
      \o Cl("C18.erroneous_kept", e.a.adderr = 1 /\ ps # << >>,
-           (e.a.adderr = 1 /\ ps # << >>) => (AllParamTexts(res) /\ IsSubseq(ps, ParamsOfTids(res))))
+           (e.a.adderr = 1 /\ ps # << >>) => (AllParamTexts(res) /\ IsSubseq(ints, ParamsOfTids(res))))
+     \o Cl("C08.pgs_argument_unchanged", e.a.enc # "str", e.o.args_same = 1)
 
 \* settings_to_dict(settings, old): e.a.S text ids, e.a.old text ids of the old dict's values,
 \* e.o.dict = << <<groupname, tid>> ... >> of the result, e.o.args_same = arguments unchanged
